@@ -19,7 +19,7 @@ import (
 // order. Checked with porcupine per table name against a small registry model.
 
 type c14cIn struct {
-	Kind string // create delete get list addf2 dropf2 mutate read dropprefix
+	Kind string // create delete get list addf2 dropf2 mutate read dropprefix dropall
 	Key  string
 	Fam  string
 	Val  string
@@ -167,6 +167,13 @@ func c14cStep(st c14cState, in c14cIn, out c14cOut) (bool, c14cState) {
 			}
 		}
 		return true, n
+	case "dropall":
+		if isErr {
+			return false, st
+		}
+		n := st.clone()
+		n.rows = map[string]map[string]string{}
+		return true, n
 	}
 	return false, st
 }
@@ -272,6 +279,8 @@ func c14Concurrent(r *Run, cfg *Stream) {
 			}
 		case "dropprefix":
 			out.Code = code(w.DropRowRange(tbl, []byte(in.Key), false))
+		case "dropall":
+			out.Code = code(w.DropRowRange(tbl, nil, true))
 		}
 		return out
 	}
@@ -285,7 +294,7 @@ func c14Concurrent(r *Run, cfg *Stream) {
 	keys := []string{"a", "ab", "b"}
 	gen := func(d *draws) c14cIn {
 		seq++
-		switch d.w(4, 3, 2, 1, 2, 2, 5, 4, 1) {
+		switch d.w(4, 3, 2, 1, 2, 2, 5, 4, 1, 1) {
 		case 0:
 			return c14cIn{Kind: "create", Desc: "CreateTable t"}
 		case 1:
@@ -305,9 +314,11 @@ func c14Concurrent(r *Run, cfg *Stream) {
 		case 7:
 			k := keys[d.n(3)]
 			return c14cIn{Kind: "read", Key: k, Desc: fmt.Sprintf("ReadRow %q", k)}
-		default:
+		case 8:
 			p := []string{"a", "ab", "b"}[d.n(3)]
 			return c14cIn{Kind: "dropprefix", Key: p, Desc: fmt.Sprintf("DropRowRange prefix %q", p)}
+		default:
+			return c14cIn{Kind: "dropall", Desc: "DropRowRange all"}
 		}
 	}
 	if preCreate {
